@@ -411,3 +411,22 @@ ADDENDA2 = {
 }
 for _pid, _add in ADDENDA2.items():
     CHECKS[_pid]["text"] = CHECKS[_pid]["text"].rstrip() + _add
+
+ADDENDA3 = {
+    'C01': ' Round 6: two goroutines sharing one Locker with a slow Delete reply at the hand-off; model action GrantCreateMid (the context ends while the winning Create is in the store).',
+    'C03': ' Round 6: one PutMany of 600-1800 records whose first expiration sits anywhere in the batch (WideTrace).',
+    'C04': ' Round 6: a stale renewal answered only after the same Locker holds again, then Unlock: the record is gone (LeaseTrace rule d); GrantCreateMid behaviours.',
+    'C05': " Round 6: the provider's default 10 s lease held for two thirds of a period; shared-Locker hand-off with a slow Delete reply.",
+    'C06': ' Round 6: expirations from a day to a century ahead on Redis with the server clock moved by whole days (FarTrace.tla).',
+    'C08': " Round 6: capacity math.MaxInt ('unbounded'), logged clamped.",
+    'C09': ' Round 6: capacity math.MaxInt in the concurrent stress.',
+    'C10': ' Round 6: 2^8 and 2^16 open iterators on the oldest entry.',
+    'C12': ' Round 6: scheduled functions that panic, one process per scenario (a package that survives is held to at-most-once).',
+    'C13': ' Round 6: scheduled functions that panic, one process per scenario (a package that survives must start every other live future).',
+    'C14': ' Round 6: RingBuffer[struct{}] with capacity math.MaxInt.',
+    'C16': ' Round 6: every input also decoded inside a guarded arena (ending at / starting behind a page that may not be touched): an over-read faults.',
+    'C19': ' Round 6: Is() of a status error names exactly the class FromGRPCError reports, also next to foreign siblings.',
+    'C20': ' Round 6: destination pre-populated with newer files of the same length at the selected paths.',
+}
+for _pid, _add in ADDENDA3.items():
+    CHECKS[_pid]["text"] = CHECKS[_pid]["text"].rstrip() + _add
